@@ -63,6 +63,9 @@ cls = z3.Function("cls", Val, Val)
 sub = z3.Function("sub", Val, Val, B)
 ival = z3.Function("ival", Val, I)
 mkint = z3.Function("mkint", I, Val)
+py_eq = z3.Function("py_eq", Val, Val, B)  # a == b
+dynattr = z3.Function("dynattr", Val, Val, Val)  # getattr(obj, name) for a run-time name
+inst_rt = z3.Function("inst_rt", Val, Val, B)  # isinstance(v, c) for a run-time class or tuple of classes
 slen = z3.Function("slen", Val, I)
 truthy_other = z3.Function("truthy_other", Val, B)
 hashable = z3.Function("hashable", Val, B)
@@ -363,6 +366,13 @@ def base_axioms() -> List[z3.BoolRef]:
     ax.append(cls(None_) == K("NoneType"))
     ax.append(z3.ForAll([v], z3.Implies(cls(v) == K("NoneType"), v == None_), patterns=[cls(v)]))
     ax.append(z3.Not(sub(cls(Ellipsis_), K("NoneType"))))
+    # == : identity on None / strings / ints (canonical values, no dunder overrides); reflexive;
+    # a string never equals a non-string; otherwise unconstrained (e.g. two equal lists)
+    a_, b_ = z3.Consts("a_ b_", Val)
+    ax.append(z3.ForAll([a_], py_eq(a_, a_), patterns=[py_eq(a_, a_)]))
+    ax.append(z3.ForAll([a_, b_], z3.Implies(z3.Or(a_ == None_, b_ == None_), py_eq(a_, b_) == (a_ == b_)), patterns=[py_eq(a_, b_)]))
+    ax.append(z3.ForAll([a_, b_], z3.Implies(z3.Or(isinst(a_, "str"), isinst(b_, "str")), py_eq(a_, b_) == (a_ == b_)), patterns=[py_eq(a_, b_)]))
+    ax.append(z3.ForAll([a_, b_], z3.Implies(z3.And(cls(a_) == K("int"), cls(b_) == K("int")), py_eq(a_, b_) == (a_ == b_)), patterns=[py_eq(a_, b_)]))
     ax.append(z3.ForAll([v], slen(v) >= 0, patterns=[slen(v)]))
     # abstract children raise ValidationError values that existed "before" (functional model)
     ax.append(
@@ -389,11 +399,15 @@ def base_axioms() -> List[z3.BoolRef]:
     if len(_strings) > 1:
         ax.append(z3.Distinct(*_strings.values()))
     # named classes are hashable values of class `type` that exist at entry
+    K("type")
     cax = classes().axioms()
+    c_ = z3.Const("c_", Val)
+    ax.append(z3.ForAll([v, c_], z3.Implies(cls(c_) == K("type"), inst_rt(v, c_) == sub(cls(v), c_)), patterns=[inst_rt(v, c_)]))
     for n, c in classes().consts.items():
         if n in classes().used:
             ax.append(hashable(c))
             ax.append(alloc0[c])
+            ax.append(cls(c) == K("type"))
     ax.append(alloc0[None_])
     ax.append(alloc0[True_])
     ax.append(alloc0[False_])
